@@ -351,7 +351,23 @@ func c16GetStatus(c *mon.Ctx) {
 				case 2:
 					binary.LittleEndian.PutUint32(d[0:], mon.Pick(r, []uint32{0, 16, 17, uint32(len(d) - 1), uint32(len(d) + 1), uint32(len(d) + 16), 0xFFFFFFFF}))
 				}
-				return []simkernel.Step{{Dgram: simkernel.Ack(m, 0)}, {Dgram: d}}
+				// audit events queued ahead of the ACK and between the ACK and the status (a busy system): 0..120 of them
+				var steps []simkernel.Step
+				nev := []int{0, 0, 3, 9, 10, 11, 25, 120}[(n+rep)%8]
+				if rep%5 >= 3 {
+					nev = 0 // the request may be numbered 0 there: an event (always numbered 0) could not be told from its reply
+				}
+				for e := 0; e < nev; e++ {
+					steps = append(steps, simkernel.Step{Dgram: simkernel.Dgram(1300+uint16(e%30), 0, 0, 0, []byte("audit(1.000:1): unsolicited"))})
+				}
+				steps = append(steps, simkernel.Step{Dgram: simkernel.Ack(m, 0)})
+				for e := 0; e < nev; e++ {
+					steps = append(steps, simkernel.Step{Dgram: simkernel.Dgram(1300+uint16(e%30), 0, 0, 0, []byte("audit(1.000:2): unsolicited"))})
+				}
+				if nev >= 10 {
+					c.Add("getstatus_cases_with_10_or_more_events_ahead_of_the_reply", 1)
+				}
+				return append(steps, simkernel.Step{Dgram: d})
 			}
 			cl := &libaudit.AuditClient{Netlink: sim}
 			k := &c16Case{Kind: "getstatus", Buf: payload}
@@ -525,7 +541,7 @@ func c16Run(c *mon.Ctx) {
 func init() {
 	register(&mon.CheckSpec{
 		ID: "C16", Level: "exploration",
-		Rule: "cases = every Set* command x {all uint32/int32 boundary values, both booleans, all failure modes incl. the exported names, random values} x both wait modes (also as the 2nd..301st request in a row of uncollected NoWait requests, as a request that the transport numbers 0, and after every ordered pair and triple - plus random runs of 3-12 - of other setters that were acknowledged and collected on the same client, SetImmutable included, and after a GetStatus that was answered with a 32..60-byte status), observed as the NetlinkMessage handed to a simulated kernel's Send and decoded word by word at the UAPI audit_status offsets (one request, type 1001, flags REQUEST|ACK, 44-byte payload, exactly one mask bit, the value in its field, every other word zero; NoWait does no receive); the 21 exported numbers against the kernel's; GetStatus's request (one AUDIT_GET, REQUEST|ACK, empty) and its decoding of replies of every length 0..96; FromWireFormat on every buffer length 0..96 x random / all-ones / all-zero contents with a garbage-prefilled receiver and the input ending at a PROT_NONE page. The same cases run a second time under the race detector (checkptr) and, in the thorough tier, under ASan. distinct_nontrivial = distinct (setter, value, mode) triples and distinct buffers.",
+		Rule: "cases = every Set* command x {all uint32/int32 boundary values, both booleans, all failure modes incl. the exported names, random values} x both wait modes (also as the 2nd..301st request in a row of uncollected NoWait requests, as a request that the transport numbers 0, and after every ordered pair and triple - plus random runs of 3-12 - of other setters that were acknowledged and collected on the same client, SetImmutable included, and after a GetStatus that was answered with a 32..60-byte status), observed as the NetlinkMessage handed to a simulated kernel's Send and decoded word by word at the UAPI audit_status offsets (one request, type 1001, flags REQUEST|ACK, 44-byte payload, exactly one mask bit, the value in its field, every other word zero; NoWait does no receive); the 21 exported numbers against the kernel's; GetStatus's request (one AUDIT_GET, REQUEST|ACK, empty) and its decoding of replies of every length 0..96, with 0-120 unsolicited audit records queued ahead of the ACK and of the status reply; FromWireFormat on every buffer length 0..96 x random / all-ones / all-zero contents with a garbage-prefilled receiver and the input ending at a PROT_NONE page. The same cases run a second time under the race detector (checkptr) and, in the thorough tier, under ASan. distinct_nontrivial = distinct (setter, value, mode) triples and distinct buffers.",
 		Assumptions: []string{
 			"expected offsets, mask bits and numbers come from internal/uapi (hand-written from linux/audit.h, self-tested against the system header)",
 			"a field the buffer reaches only partially may be zero or hold the reached low bytes (the statement does not define it)",
